@@ -1184,6 +1184,10 @@ class AttributePolicy(object):
         """
         # TODO (peterhamilton) Handle applicability between certificate types
         rule_set = self._attribute_rule_sets.get(attribute)
+        if rule_set is None:
+            # Unknown attributes (e.g., custom attributes) are not applicable
+            # to any object type.
+            return False
         if object_type in rule_set.applies_to_object_types:
             return True
         else:
